@@ -4,6 +4,8 @@
 package authsvc
 
 import (
+	"time"
+	"sync/atomic"
 	"context"
 	"encoding/base64"
 	"fmt"
@@ -38,6 +40,8 @@ type Service struct {
 	RequireChallenge bool
 	// NTLMDelegate, when set, handles NTLM requests (e.g. the repo's real verifier)
 	NTLMDelegate func(*auth.NtlmRequest) (*auth.NtlmResponse, error)
+	// BasicDelay: how long a basic verdict takes (a directory or PAM stack is not instantaneous)
+	BasicDelay atomic.Int64 // nanoseconds
 }
 
 // Start listens on a fresh unix socket inside dir.
@@ -62,6 +66,9 @@ func Start(dir string, users map[string]string) (*Service, error) {
 func (s *Service) Stop() { s.srv.Stop(); os.Remove(s.Socket) }
 
 func (s *Service) Authenticate(ctx context.Context, m *auth.UserPass) (*auth.AuthResponse, error) {
+	if d := s.BasicDelay.Load(); d > 0 {
+		time.Sleep(time.Duration(d))
+	}
 	s.mu.Lock()
 	defer s.mu.Unlock()
 	pw, ok := s.Users[m.Username]
